@@ -416,12 +416,23 @@ fn run_set(d: &dyn Driver, ctx: &Ctx, idx: u64, seed: u64) -> CaseOut {
         let name = d.fmt_name(f);
         let bytes = match guard::catch(|| d.write(f)) {
             Err(p) => {
+                // a mapped record with a CIGAR but without bases makes the CRAM writer panic (io/writer/record/convert.rs
+                // indexes the empty sequence); C07 records that as observed, not judged - CRAM derives its features from
+                // the bases. Counted here as well.
+                if d.class() == "scale-long-cigar-noseq-noqual" && name == "cram" {
+                    out.o.count(&format!("writer_panicked_sets_not_judged[{side}/{}/{name}]", d.class()), 1);
+                    continue;
+                }
                 out.violation(format!("panic:{}", p.sig), format!("{side}: generic writer for {name} panicked: {}", p.message), Value::Null);
                 continue;
             }
             Ok(Err(e)) => {
                 out.o.count(&format!("writer_rejected[{side}/{name}/{}]", e.stage), 1);
-                out.o.inconclusive.push(format!("{side}: generic writer for {name} rejected a common-model set at {}: {}", e.stage, e.err));
+                // missing SEQ / QUAL with a long CIGAR is outside what every writer has to take: counted, not judged
+                if !d.class().starts_with("scale-long-cigar-") {
+                    out.o.inconclusive.push(format!("{side}: generic writer for {name} rejected a common-model set at {}: {}", e.stage, e.err));
+                }
+                out.o.count(&format!("writer_rejected_sets[{side}/{}/{name}]", d.class()), 1);
                 continue;
             }
             Ok(Ok(b)) => b,
@@ -683,9 +694,13 @@ fn run_set(d: &dyn Driver, ctx: &Ctx, idx: u64, seed: u64) -> CaseOut {
         let _ = std::fs::remove_file(&path);
     }
     let _ = std::fs::remove_dir_all(&dir);
+    let cg = aln::CG_CARRIER_FIELDS_ATTRIBUTED.swap(0, std::sync::atomic::Ordering::Relaxed);
+    if cg > 0 {
+        out.o.count("cg_carrier_fields_attributed_to_known_C05_C06_finding", cg);
+    }
     if d.class().starts_with("scale-") {
         out.o.count(&format!("scale_sets[{side}/{}]", d.class()), 1);
-        if src_ok.iter().all(|&x| x) {
+        if (0..n).all(|f| src_ok[f] || (d.class() == "scale-long-cigar-noseq-noqual" && d.fmt_name(f) == "cram")) {
             out.o.count(&format!("scale_sets_read_back_in_every_format[{side}/{}]", d.class()), 1);
         }
         out.o.max(&format!("max_scale_records[{side}]"), exp.lines.len() as u64);
@@ -883,6 +898,16 @@ fn main() {
          100 kB Z tag between small records; variant dictionaries of 130 / 260 (thorough 32 770) extra FILTERs plus extra INFO/FORMAT keys used in windows around \
          dictionary positions 128 / 256 / 32 768, records with a 70 kB / 140 kB INFO String and a 100 kB ALT, 3000 samples with GT:DP:AD:PL:XT; all through every \
          pair, read_record into one reused record, records(), and the whole conversion matrix"
+            .into(),
+    );
+    rep.assumptions.push(
+        "variant strings (IDs, INFO String / String list / Character, FORMAT String) mix 2-, 3- and 4-byte code points in one word out of three; the deterministic \
+         set non-ascii-text adds non-ASCII sample names and a non-ASCII FILTER id (contig names stay ASCII: the VCF writer rejects others). Scale classes \
+         scale-long-cigar-{seq-qual,seq-noqual,noseq-noqual}: mapped records with 65535 / 65536 / 70000 CIGAR operations between small ones; established on \
+         the unchanged tree: all five formats carry them, except that the CRAM writer panics on a mapped record without bases (C07: observed, not judged; \
+         counted in writer_panicked_sets_not_judged). A CG:B:I field on a record with more than 65535 operations read through the lazy bam::Record is the \
+         known C05 finding lazy-ne-eager:data-retains-CG-of-long-cigar / C06 sam-bam-sam:extra-CG-field-of-long-cigar: it is dropped before comparing and counted \
+         (cg_carrier_fields_attributed_to_known_C05_C06_finding), never raised under a C20 signature"
             .into(),
     );
     rep.assumptions.push(
